@@ -6,6 +6,7 @@ import (
 	"fmt"
 	"math/big"
 	"os"
+	"sort"
 	"strings"
 	"testing"
 
@@ -875,12 +876,23 @@ func modelledOps(ep refevm.Epoch, onlyValid bool) []byte {
 	return out
 }
 
-// drawProgram builds a program and reports its shape class.
-func drawProgram(t *rapid.T, ep refevm.Epoch, inputLen int, number uint64) ([]byte, []string) {
-	nfrag := rapid.IntRange(1, ev.Pick(60, 200)).Draw(t, "nfrag")
+// drawProgram builds a program and reports its shape class. With px == nil the
+// program stays inside the computational subset (plus raw opcodes); with a
+// progCtx it also starts nested frames (see calltree_test.go).
+func drawProgram(t *rapid.T, ep refevm.Epoch, inputLen int, number uint64, px *progCtx) ([]byte, []string) {
+	maxFrag := ev.Pick(60, 200)
+	if px != nil {
+		maxFrag = px.maxFrag()
+	}
+	minFrag := 1
+	if px != nil && px.level == 0 {
+		minFrag = 8 // room for several nested frames
+	}
+	nfrag := rapid.IntRange(minFrag, maxFrag).Draw(t, "nfrag")
 	validOps := modelledOps(ep, true)
 	allOps := modelledOps(ep, false)
 	var frags []fragment
+	var tail []fragment // data placed behind the program (init codes fetched with CODECOPY)
 	nextLabel := 0
 	pendingAt := map[int][]int{} // fragment index -> labels to define before it
 	classes := map[string]bool{}
@@ -898,11 +910,42 @@ func drawProgram(t *rapid.T, ep refevm.Epoch, inputLen int, number uint64) ([]by
 		}
 		return a.b
 	}
+	if px != nil && px.level > 0 && rapid.IntRange(0, 4).Draw(t, "readsReturnData") == 0 {
+		// a nested frame that first looks at the return data buffer: empty in a new frame, whatever its caller's holds
+		if rapid.Bool().Draw(t, "rdSize") {
+			emit([]byte{0x3d})
+			depth++
+		} else {
+			emit((&asm{}).pushU(uint64(rapid.IntRange(0, 3).Draw(t, "rdLen"))).pushU(0).pushU(0).op(0x3e).b)
+		}
+	}
 	for i := 0; i < nfrag; i++ {
 		for _, l := range pendingAt[i] {
 			frags = append(frags, fragment{code: []byte{0x5b}, labelRef: -1, defines: l})
 		}
-		kind := rapid.IntRange(0, 99).Draw(t, "frag")
+		kind := -1
+		if px != nil {
+			x := rapid.IntRange(0, 99).Draw(t, "xfrag")
+			switch {
+			case x < px.extPct():
+				fs, tl, d := px.external(t, ep, inputLen, number, &nextLabel, pushWord)
+				frags = append(frags, fs...)
+				tail = append(tail, tl...)
+				depth += d
+				if depth < 0 {
+					depth = 0
+				}
+				continue
+			case x < px.extPct()+25: // more control flow than the plain leg: forward jumps, loops, bad targets, PUSH data
+				kind = rapid.IntRange(72, 94).Draw(t, "jfrag")
+			}
+		}
+		if kind < 0 {
+			kind = rapid.IntRange(0, 99).Draw(t, "frag")
+		}
+		if px != nil && px.level == 0 && kind >= 88 && kind < 95 && rapid.IntRange(0, 3).Draw(t, "rootSurvives") > 0 {
+			kind = 72 // the top frame mostly lives on to start further frames: a forward jump instead of a bad one
+		}
 		switch {
 		case kind < 18: // push a word
 			emit(pushWord(genWord().Draw(t, "pushed")))
@@ -1051,13 +1094,32 @@ func drawProgram(t *rapid.T, ep refevm.Epoch, inputLen int, number uint64) ([]by
 			}
 		}
 	}
-	// labels whose target lies beyond the last fragment are defined at the end
-	for i, ls := range pendingAt {
-		if i >= nfrag {
-			for _, l := range ls {
-				frags = append(frags, fragment{code: []byte{0x5b}, labelRef: -1, defines: l})
-			}
+	if px != nil && px.level > 0 && rapid.Bool().Draw(t, "nestedTerm") {
+		// a nested frame that gets to its end hands something back: RETURN (for an init code: the code to deploy) or REVERT
+		a := (&asm{}).pushU(uint64(rapid.SampledFrom([]int{32, 1, 0, 33, 64, 100, 7}).Draw(t, "rlen"))).pushU(uint64(rapid.IntRange(0, 150).Draw(t, "roff")))
+		if rapid.IntRange(0, 3).Draw(t, "nestedRevert") == 0 {
+			a.op(0xfd)
+		} else {
+			a.op(0xf3)
 		}
+		emit(a.b)
+	}
+	// labels whose target lies beyond the last fragment are defined at the end
+	var late []int
+	for i := range pendingAt {
+		if i >= nfrag {
+			late = append(late, i)
+		}
+	}
+	sort.Ints(late) // not in map order: the layout must be a function of the draws alone
+	for _, i := range late {
+		for _, l := range pendingAt[i] {
+			frags = append(frags, fragment{code: []byte{0x5b}, labelRef: -1, defines: l})
+		}
+	}
+	if len(tail) > 0 {
+		frags = append(frags, fragment{code: []byte{0x00}, labelRef: -1, defines: -1})
+		frags = append(frags, tail...)
 	}
 	// layout and patching
 	pos := map[int]int{}
@@ -1083,7 +1145,11 @@ func drawProgram(t *rapid.T, ep refevm.Epoch, inputLen int, number uint64) ([]by
 		code = code[:0xffff]
 	}
 	// mutation
-	if rapid.IntRange(0, 99).Draw(t, "mutate") < 15 && len(code) > 0 {
+	mutPct := 15
+	if px != nil && px.level == 0 {
+		mutPct = 2 // a mutated top frame rarely gets as far as starting another frame
+	}
+	if rapid.IntRange(0, 99).Draw(t, "mutate") < mutPct && len(code) > 0 {
 		classes["program:mutated"] = true
 		for j, m := 0, rapid.IntRange(1, 4).Draw(t, "nmut"); j < m; j++ {
 			p := rapid.IntRange(0, len(code)-1).Draw(t, "mpos")
@@ -1117,7 +1183,7 @@ func TestPrograms(t *testing.T) {
 		ne := drawEpoch(t)
 		ep := epochOf(ne.Cfg.config(), ne.Number)
 		input := drawInput(t)
-		code, classes := drawProgram(t, ep, len(input), ne.Number)
+		code, classes := drawProgram(t, ep, len(input), ne.Number, nil)
 		mode := rapid.IntRange(0, 6).Draw(t, "gasMode")
 		frac := rapid.Uint64().Draw(t, "gasFrac")
 		k := newKase(ne, code, input, 0)
@@ -1148,6 +1214,10 @@ func FuzzProgram(f *testing.F) {
 	}
 	f.Add(tupleProgram(0x1d, []*big.Int{big.NewInt(255), pow2(255)}, false), []byte{}, uint32(100000), uint8(4))
 	f.Add(tupleProgram(0x0b, []*big.Int{big.NewInt(30), pow2(247)}, true), []byte{1, 2, 3}, uint32(100000), uint8(2))
+	ci := cornerInits()
+	for i := 0; i+1 < len(ci); i += 9 {
+		f.Add(factoryOf(ci[i].code, ci[len(ci)-1-i].code), []byte{}, uint32(1_900_000), uint8(i))
+	}
 	f.Fuzz(func(t *testing.T, code, input []byte, gas uint32, sel uint8) {
 		if len(code) > 4096 || len(input) > 1024 {
 			return
@@ -1156,6 +1226,10 @@ func FuzzProgram(f *testing.F) {
 		ne := pts[int(sel)%len(pts)]
 		k := newKase(ne, code, input, uint64(gas)%2_000_000)
 		if _, _, problem := judge(k); problem != "" {
+			t.Fatalf("%s\ncase: %s", problem, mustJSON(k.toJSON(problem)))
+		}
+		// and every frame of the call tree the program starts (CREATE / CALL* bytes in the fuzzed code)
+		if _, _, problem, _ := judgeTree(k); problem != "" {
 			t.Fatalf("%s\ncase: %s", problem, mustJSON(k.toJSON(problem)))
 		}
 	})
